@@ -173,4 +173,16 @@ PROPS = {
             "tempfile unlinks its temporary on drop; a killed process leaves it (stray .tmpXXXX files are allowed after a kill, not after an error return)",
         ],
     },
+    "C14": {
+        "theorems": "JubakoModel.Theorems.C14",
+        "harness": "c14",
+        "sig_exclude": "^c16-",
+        "profiles": ["debug"],
+        "rule": "cases = (b) every entry of the committed reference corpus corpus/ref (16 entries produced by the pinned jubako fc3306d: containers in 3 packagings x {none,lz4,lzma,zstd}; directory packs with all property kinds on plain and indexed stores, variants of unequal size, a sorted store), each read by the current reader AND by the Lean decoder and compared with the recorded logical dump, directory packs additionally re-encoded byte for byte by the Lean writer model; plus (a) 12/120 fresh content packs, 25/300 fresh directory packs and 6/40 fresh containers (generators of C01/C02/C10) written by the current creator, decoded by the Lean decoder and re-encoded byte for byte by the Lean writer models; non-trivial = any corpus entry or fresh pack with content",
+        "assumptions": [
+            "where spec/*.rst and the code disagree (cluster header u8,u8,u16; 32-byte locator; u64 indexed-store count; entry-store tail field order) the pinned code's bytes are the reference (DESIGN appendix A)",
+            "reference corpus inputs are restricted to those the pinned writer handled correctly (no D3/D4/D5/D6 shapes); container packs of the corpus declare the short size of D12 and must keep reading",
+            "codec crates (lz4, xz2, zstd) called directly by the harness are the decompression oracle of the Lean decoder",
+        ],
+    },
 }
